@@ -186,6 +186,14 @@ def literal_sets():
     # several independent 2-cycles among enum values and among virtual fields
     out.append(({"m.emb": "enum Ee:\n  AA = BB\n  BB = AA\n  CC = DD\n  DD = CC\n  FF = GG\n  GG = FF\n"}, "m.emb"))
     out.append(({"m.emb": "struct Foo:\n  let a = b\n  let b = a\n  let c = d\n  let d = c\n  let e = f\n  let f = e\n"}, "m.emb"))
+    # an accepted module with many imports, some of them imported twice under different names, and a
+    # diamond: whatever is emitted once per import is emitted in one order
+    many = {"m.emb": "".join('import "%s.emb" as %s\n' % (n_, a_) for n_, a_ in [("zeta", "z"), ("alpha", "a"), ("mid", "m"), ("beta", "b"), ("alpha", "a2"), ("omega_long_name", "o")])
+            + '[$default byte_order: "LittleEndian"]\n[(cpp) namespace: "many"]\nstruct Top:\n  0 [+1]  z.Zz  fz\n  1 [+1]  a.Aa  fa\n  2 [+1]  m.Mm  fm\n  3 [+1]  b.Bb  fb\n  4 [+1]  a2.Aa  faa\n  5 [+1]  o.Oo  fo\n'}
+    for n_, t_ in [("zeta", "Zz"), ("alpha", "Aa"), ("beta", "Bb"), ("omega_long_name", "Oo")]:
+        many[n_ + ".emb"] = '[(cpp) namespace: "many::%s"]\nstruct %s:\n  0 [+1]  UInt  v\n' % (n_, t_)
+    many["mid.emb"] = 'import "alpha.emb" as al\n[(cpp) namespace: "many::mid"]\nstruct Mm:\n  0 [+1]  al.Aa  inner\n'
+    out.append((many, "m.emb"))
     out.append(({"a.emb": 'import "b.emb" as b\nstruct Aa:\n  0 [+1]  UInt  x\n', "b.emb": 'import "a.emb" as a\nstruct Bb:\n  0 [+1]  UInt  x\n'}, "a.emb"))
     return out
 
